@@ -48,3 +48,19 @@ Example C03_protocol_nonvacuous :
   op_ok [r 0; PLoad 0; c 0; r 5; c 0; PLoad 5; PLoad 5] = false /\
   scan_ok [PRLock 0 true 8%Z; PRLock 5 true 4%Z; PCheck 0 true 8%Z; PCheck 5 true 8%Z] = false.
 Proof. vm_compute. repeat split; reflexivity. Qed.
+
+(** R1 for scans (added after the seeded change C09/5, a dropped re-validation
+    of the node on one try_seek path): in an accepted scan without failed
+    validations every field load is followed by a successful validation of
+    the node it was made from *)
+Theorem C03_protocol_scan_loads : forall l, scan_ok l = true -> forallb (fun x => negb (is_failure x)) l = true ->
+  forall a n b, l = a ++ PLoad n :: b -> existsb (validates n) b = true.
+Proof. exact scan_loads_validated. Qed.
+Print Assumptions C03_protocol_scan_loads.
+
+Example C03_protocol_scan_nonvacuous :
+  let r n := PRLock n true 0%Z in let c n := PCheck n true 0%Z in
+  scan_ok [r 0; PLoad 0; c 0; r 5; PLoad 5; PLoad 5; c 5; r 7; c 7] = true /\
+  scan_ok [r 0; PLoad 0; c 0; r 5; PLoad 5; PLoad 5; r 7; c 7] = false /\
+  scan_ok [r 0; PLoad 0; c 0; r 5; PLoad 5; PLoad 5; r 7; PCheck 7 false 0%Z] = true.
+Proof. vm_compute. repeat split; reflexivity. Qed.
